@@ -1059,7 +1059,7 @@ def normal_forms(strings):
     """Real library behaviour of the three opaque string codecs on the given strings:
     {kind: {s: normal form | None}} — parse (as the metador parser classes do) then encode
     (as the registered JSON encoders do). Runs in a worker (imports the real code)."""
-    from pydantic import create_model
+    from pydantic import ValidationError, create_model
 
     from metador_core.schema.base import BaseModelPlus
 
@@ -1071,8 +1071,11 @@ def normal_forms(strings):
         for s in strings:
             try:
                 tbl[s] = json.loads(M(f=s).json())["f"]
-            except Exception as e:
+            except ValidationError as e:
                 tbl[s] = None
+                NF_ERRORS[(kind, s)] = "%s: %s" % (type(e).__name__, str(e)[:200])
+            except Exception as e:  # not a validation error: pydantic lets it through (False = "raises")
+                tbl[s] = False
                 NF_ERRORS[(kind, s)] = "%s: %s" % (type(e).__name__, str(e)[:200])
         out[kind] = tbl
     return out
@@ -1089,5 +1092,5 @@ def nf_lines(nf, strings):
         for s in sorted(strings):
             if s in tbl:
                 n = tbl[s]
-                L.append("nf %s %s %s" % (kind, hx(s) or "-", "!" if n is None else (hx(n) or "-")))
+                L.append("nf %s %s %s" % (kind, hx(s) or "-", "!" if n is None else ("!!" if n is False else (hx(n) or "-"))))
     return L
